@@ -664,3 +664,19 @@ func pickN(c *ev.Check, quick, thor int) int {
 }
 
 var classMu sync.Mutex
+
+// raceVerdict records how many race reports the race detector wrote during this check's runs
+// (every binary is built with -race, GORACE=halt_on_error=0) and turns them into violations: a data
+// race on the redaction state means the outputs observed are not the only ones this workload can
+// produce, and every property here is claimed for every schedule. Deduplicated by the pair of
+// racing functions, line numbers stripped.
+func raceVerdict(s *sut.SUT, c *ev.Check) int {
+	n := s.RaceReports()
+	c.Set("race_reports", n)
+	if n > 0 {
+		for pair, report := range s.RacePairs() {
+			c.Violation("data-race|"+pair, fmt.Sprintf("the race detector reported a data race during these runs (%d reports in all): %s", n, pair), map[string]any{"kind": "race-report", "report": report})
+		}
+	}
+	return n
+}
